@@ -113,6 +113,12 @@ func (c *defaultClient) Unpin(ctx context.Context, ci cid.Cid) (*api.Pin, error)
 	return &pin, nil
 }
 
+// escapePath escapes an IPFS path for use as the path of a request URL, so
+// that '?', '#' or '%' in a file name are not taken for URL syntax.
+func escapePath(p string) string {
+	return (&url.URL{Path: p}).EscapedPath()
+}
+
 // PinPath allows to pin an element by the given IPFS path.
 func (c *defaultClient) PinPath(ctx context.Context, path string, opts api.PinOptions) (*api.Pin, error) {
 	ctx, span := trace.StartSpan(ctx, "client/PinPath")
@@ -132,7 +138,7 @@ func (c *defaultClient) PinPath(ctx context.Context, path string, opts api.PinOp
 		"POST",
 		fmt.Sprintf(
 			"/pins%s?%s",
-			ipfspath.String(),
+			escapePath(ipfspath.String()),
 			query,
 		),
 		nil,
@@ -155,7 +161,7 @@ func (c *defaultClient) UnpinPath(ctx context.Context, p string) (*api.Pin, erro
 		return nil, err
 	}
 
-	err = c.do(ctx, "DELETE", fmt.Sprintf("/pins%s", ipfspath.String()), nil, nil, &pin)
+	err = c.do(ctx, "DELETE", fmt.Sprintf("/pins%s", escapePath(ipfspath.String())), nil, nil, &pin)
 	return &pin, err
 }
 
@@ -316,7 +322,7 @@ func (c *defaultClient) Metrics(ctx context.Context, name string) ([]*api.Metric
 		return nil, errors.New("bad metric name")
 	}
 	var metrics []*api.Metric
-	err := c.do(ctx, "GET", fmt.Sprintf("/monitor/metrics/%s", name), nil, nil, &metrics)
+	err := c.do(ctx, "GET", fmt.Sprintf("/monitor/metrics/%s", url.PathEscape(name)), nil, nil, &metrics)
 	return metrics, err
 }
 
